@@ -8,8 +8,8 @@ Separate Extraction
   BinInt.Z.add BinInt.Z.mul BinInt.Z.opp BinInt.Z.div_eucl BinInt.Z.compare BinInt.Z.of_nat BinInt.Z.to_nat
   BinNat.N.add BinNat.N.mul BinNat.N.div_eucl BinInt.Z.of_N BinInt.Z.to_N
   Strings.Byte.of_N Strings.Byte.to_N
-  Pool.eget Pool.c_new_enc Pool.c_new_encoder Pool.c_enc_step Pool.c_free_enc
-  Pool.dget Pool.c_new_dec Pool.c_new_decoder Pool.c_dec_step Pool.c_free_dec
+  Pool.eget Pool.c_new_enc Pool.c_new_encoder Pool.cv_enc_step Pool.cv_free_enc Pool.as_found
+  Pool.dget Pool.c_new_dec Pool.c_new_decoder Pool.c_new_decoder_from_reader Pool.cv_dec_step Pool.cv_free_dec
   Pool.own_decode Pool.all_owned Pool.view_api_own Pool.safe_api_own
   Registry.init Registry.step Registry.run Registry.finished Registry.isolated Registry.seq_out
   Registry.others_built.
